@@ -137,6 +137,22 @@ def cases(ctx):
                 out.append({"kind": f"user-map:{fmt}:{mapping}", "rom": mapping, "mapping": mapping, "format": fmt, "copier": copier,
                             "defines": {}, "src": usermap, "api": True, "cli": mapping is not None and not copier, "symfile": True,
                             "spec": {"t": "c12"}})
+    # the command line's --dump-symbols switch only prints: same file, same status
+    for mapping in ("low", "high"):
+        for fmt in ("ips", "sfc"):
+            out.append({"kind": f"dump-symbols:{fmt}:{mapping}", "rom": mapping, "mapping": mapping, "format": fmt, "copier": False, "defines": {},
+                        "src": (f"*={ORG[mapping][0]:#08x}\nstart:\njmp.w next\nnext:\nbra start\n.dw next & 0xFFFF\n.scope zz_s {{\nzz_l:\nzz_v = 3\n}}\n"
+                                ".dl zz_s.zz_l\n.db zz_s.zz_v\n{\nzz_in:\n.dw zz_in & 0xFFFF\n}\n"),
+                        "api": True, "cli": True, "dump_symbols": True, "symfile": True, "spec": {"t": "c12"}})
+    # the main source in a sub-directory, files it reads named relative to the working directory (a file of the same
+    # relative name beside the source is NOT the one meant)
+    for fmt in ("ips", "sfc"):
+        out.append({"kind": f"source-in-subdir:{fmt}", "rom": "low", "mapping": "low", "format": fmt, "copier": False, "defines": {},
+                    "fname": "src/main.s", "files": {"assets/pal.bin": [1, 2, 3, 4], "src/assets/pal.bin": [9, 9], "assets/t.tbl": {"tbl": [("a", [0x41])]},
+                                                      "src/assets/t.tbl": {"tbl": [("a", [0x7A])]}, "inc/part.s": ".incbin 'assets/pal.bin'\n",
+                                                      "src/inc/part.s": "nop\n"},
+                    "src": "*=0x008000\n.incbin 'assets/pal.bin'\n.table 'assets/t.tbl'\n.text 'a'\n.include 'inc/part.s'\nend:\n.dl end\n",
+                    "api": True, "cli": True, "symfile": True, "spec": {"t": "c12"}})
     # programs that write no byte at all: the output is still a complete file of its format (PATCH + EOF / an empty image)
     for mapping in (None, "low", "high"):
         for name, src in (("empty", ""), ("symbols-only", "zz_a := 1\nzz_b = zz_a + 1\n"), ("labels-only", "*=0x408000\nzz_l:\nzz_m:\n"),
